@@ -103,6 +103,108 @@ def _sha(text: str) -> str:
     return hashlib.sha256(text.encode()).hexdigest()
 
 
+class _Normalise(ast.NodeTransformer):
+    """Source normalisation applied when a module is loaded, so that rules see one spelling of equivalent code:
+    a single comparison with the constant on the left (`"x" == v`, `None is v`, `1 < n`) is turned round (`v == "x"`, `v is None`, `n > 1`).
+    Positions are kept; nothing else is rewritten."""
+    _FLIP = {ast.Eq: ast.Eq, ast.NotEq: ast.NotEq, ast.Is: ast.Is, ast.IsNot: ast.IsNot, ast.Lt: ast.Gt, ast.Gt: ast.Lt, ast.LtE: ast.GtE, ast.GtE: ast.LtE}
+
+    def visit_Compare(self, node):
+        self.generic_visit(node)
+        if len(node.ops) == 1 and type(node.ops[0]) in self._FLIP and isinstance(node.left, ast.Constant) and not isinstance(node.comparators[0], ast.Constant):
+            new = ast.Compare(left=node.comparators[0], ops=[self._FLIP[type(node.ops[0])]()], comparators=[node.left])
+            return ast.copy_location(new, node)
+        return node
+
+    _NEG = {ast.Is: ast.IsNot, ast.IsNot: ast.Is, ast.Eq: ast.NotEq, ast.NotEq: ast.Eq, ast.In: ast.NotIn, ast.NotIn: ast.In}
+
+    def visit_UnaryOp(self, node):
+        # not (a is None) -> a is not None, not (a == b) -> a != b, not (a in b) -> a not in b, not not a -> a (only under another `not` / in a test position it is
+        # the same truth value; as a value `not not a` is bool(a), so that one is left alone)
+        self.generic_visit(node)
+        if isinstance(node.op, ast.Not) and isinstance(node.operand, ast.Compare) and len(node.operand.ops) == 1 and type(node.operand.ops[0]) in self._NEG:
+            c = node.operand
+            return ast.copy_location(ast.Compare(left=c.left, ops=[self._NEG[type(c.ops[0])]()], comparators=c.comparators), node)
+        return node
+
+    @staticmethod
+    def _negative(t):
+        if isinstance(t, ast.UnaryOp) and isinstance(t.op, ast.Not):
+            return t.operand
+        if isinstance(t, ast.Compare) and len(t.ops) == 1 and isinstance(t.ops[0], (ast.IsNot, ast.NotEq, ast.NotIn)):
+            pos = {ast.IsNot: ast.Is, ast.NotEq: ast.Eq, ast.NotIn: ast.In}[type(t.ops[0])]()
+            return ast.copy_location(ast.Compare(left=t.left, ops=[pos], comparators=t.comparators), t)
+        return None
+
+    def visit_If(self, node):
+        # `if <negative test>: B else: A` with a plain else -> `if <positive test>: A else: B`
+        self.generic_visit(node)
+        if node.orelse and not (len(node.orelse) == 1 and isinstance(node.orelse[0], ast.If)):
+            pos = self._negative(node.test)
+            if pos is not None:
+                return ast.copy_location(ast.If(test=pos, body=node.orelse, orelse=node.body), node)
+        return node
+
+    # `t = E` immediately followed by `return t` / `yield t` / `if t:` / `raise t`, t bound once and read once in the whole function  ->  the temporary is folded away
+    def _fold_temps(self, fn):
+        loads, stores = {}, {}
+        for n in ast.walk(fn):
+            if isinstance(n, ast.Name):
+                d = loads if isinstance(n.ctx, ast.Load) else stores
+                d[n.id] = d.get(n.id, 0) + 1
+            elif isinstance(n, (ast.Global, ast.Nonlocal)):
+                for nm in n.names:
+                    stores[nm] = stores.get(nm, 0) + 2
+        params = {a.arg for a in fn.args.args + fn.args.kwonlyargs + fn.args.posonlyargs} | ({fn.args.vararg.arg} if fn.args.vararg else set()) | ({fn.args.kwarg.arg} if fn.args.kwarg else set())
+
+        def single(nm):
+            return loads.get(nm, 0) == 1 and stores.get(nm, 0) == 1 and nm not in params
+
+        def fold(stmts):
+            out = []
+            i = 0
+            while i < len(stmts):
+                s = stmts[i]
+                nxt = stmts[i + 1] if i + 1 < len(stmts) else None
+                if isinstance(s, ast.Assign) and len(s.targets) == 1 and isinstance(s.targets[0], ast.Name) and single(s.targets[0].id) and nxt is not None:
+                    nm = s.targets[0].id
+                    done = False
+                    if isinstance(nxt, ast.Return) and isinstance(nxt.value, ast.Name) and nxt.value.id == nm:
+                        out.append(ast.copy_location(ast.Return(value=s.value), s)); done = True
+                    elif isinstance(nxt, ast.Expr) and isinstance(nxt.value, ast.Yield) and isinstance(nxt.value.value, ast.Name) and nxt.value.value.id == nm:
+                        out.append(ast.copy_location(ast.Expr(value=ast.copy_location(ast.Yield(value=s.value), s)), s)); done = True
+                    elif isinstance(nxt, ast.Raise) and isinstance(nxt.exc, ast.Name) and nxt.exc.id == nm and nxt.cause is None:
+                        out.append(ast.copy_location(ast.Raise(exc=s.value, cause=None), s)); done = True
+                    if done:
+                        i += 2
+                        continue
+                out.append(s)
+                i += 1
+            return out
+
+        for n in ast.walk(fn):
+            for f in ("body", "orelse", "finalbody"):
+                v = getattr(n, f, None)
+                if isinstance(v, list) and v and isinstance(v[0], ast.stmt):
+                    setattr(n, f, fold(v))
+            if isinstance(n, ast.ExceptHandler):
+                n.body = fold(n.body)
+
+    def visit_FunctionDef(self, node):
+        self.generic_visit(node)
+        self._fold_temps(node)
+        return node
+
+    visit_AsyncFunctionDef = visit_FunctionDef
+
+    def visit_IfExp(self, node):
+        self.generic_visit(node)
+        pos = self._negative(node.test)
+        if pos is not None:
+            return ast.copy_location(ast.IfExp(test=pos, body=node.orelse, orelse=node.body), node)
+        return node
+
+
 class Program:
     """Parsed program: signac modules from the working tree + selected dependency modules."""
 
@@ -138,7 +240,7 @@ class Program:
         try:
             with open(full, encoding="utf-8") as fh:
                 src = fh.read()
-            tree = ast.parse(src, filename=full)
+            tree = _Normalise().visit(ast.parse(src, filename=full))
         except (OSError, SyntaxError) as e:  # a tree that does not parse is not analysable
             self.parse_errors.append(f"{rel}: {e}")
             return
